@@ -38,15 +38,21 @@ class HasCell:
 
     @cell.setter
     def cell(self, cell: Cell | None) -> None:
+        old_cell = self.cell
+
+        # enter the new cell first: if it refuses (it is full) nothing has changed yet
+        if cell is not None and cell is not old_cell:
+            cell.add_agent(self)
+
         # remove from current cell
-        if self.cell is not None:
-            self.cell.remove_agent(self)
+        if old_cell is not None:
+            old_cell.remove_agent(self)
 
         # update private attribute
         self._mesa_cell = cell
 
-        # add to new cell
-        if cell is not None:
+        # re-entering the current cell: it has room again after the removal above
+        if cell is not None and cell is old_cell:
             cell.add_agent(self)
 
 
